@@ -568,6 +568,11 @@ def check_C10(tier, seed):
         for rel in files:
             yield from refs.gen_file_session(rng, rel, max_tr=30 if q else 400, nrandom=10 if q else 40)
     run_pipeline(res, binary, "files", gen_lines=events(), nshards=16, min_events=300)
+    def nevents():
+        for rel in ["EST5EDT", "CST6CDT", "MST7MDT", "PST8PDT", "EST", "MST", "HST", "CET", "EET", "MET", "WET", "Etc/GMT0", "Etc/GMT+5", "Etc/UTC", "Europe/Dublin"]:
+            if os.path.exists(os.path.join(gens.CORPUS, rel)):
+                yield from refs.gen_file_session(rng, rel, max_tr=12 if q else 400, nrandom=12 if q else 40, mk=not q, by_name=True)
+    run_pipeline(res, binary, "names", gen_lines=nevents(), nshards=8, min_events=200)
     def sevents():
         for s in refs.POSIX_STRINGS:
             yield from refs.gen_string_session(rng, s)
